@@ -350,6 +350,105 @@ class ForEachRule(ast.NodeTransformer):
         return new + [iff]
 
 
+class RangeSpec:
+    """Invariant of `for _ in range(N): B` with a SYMBOLIC trip count N, keyed by for-loop ordinal.
+
+    inv(L, j)          -> SymBool : holds before iteration j (j a ghost integer term, 0 <= j <= max(N, 0))
+    havoc_state(L, fresh)         : replaces every heap location the body (and its callees) may modify by fresh
+                                    values / ghosts; `covers` lists the attribute targets assigned directly in the
+                                    body that it takes care of (anything else assigned there is Undecided)
+    """
+
+    def __init__(self, inv, havoc_state, covers=()):
+        self.inv, self.havoc_state, self.covers = inv, havoc_state, tuple(covers)
+
+
+class _RangeCtx:
+    def __init__(self, specs, fresh):
+        self.specs, self.fresh = specs, fresh
+        self.ghost_j = {}
+
+    def enter(self, i, L, n):
+        core.current().prove(f"range{i}:inv-entry", core._b(self.specs[i].inv(L, 0)))
+
+    def havoc(self, i, name):
+        return self.fresh("havoc_" + name)
+
+    def pick(self, i, L, n):
+        eng = core.current()
+        self.specs[i].havoc_state(L, self.fresh)
+        j = self.fresh(f"ghost_j{i}")
+        eng.assume(core._b(core.and_(j >= 0, core.or_(j <= n, j == 0))))
+        eng.assume(core._b(self.specs[i].inv(L, j)))
+        self.ghost_j[i] = j
+        return j
+
+    def after(self, i, L, j):
+        eng = core.current()
+        eng.prove(f"range{i}:inv-preserved", core._b(self.specs[i].inv(L, j + 1)))
+        raise core.Cut()
+
+
+class RangeRule(ast.NodeTransformer):
+    """for V in range(N): B   (N symbolic, V unused or used only as the iteration number)  ==>
+         __n = N
+         __rg.enter(i, locals(), __n)              # assert Inv(0)
+         <local names assigned in B> = havoc
+         __j = __rg.pick(i, locals(), __n)         # heap havoc by the spec, ghost j, assume 0 <= j <= max(n,0) and Inv(j)
+         if __j < __n:
+             V = __j
+             B                                     # `continue` is not supported here
+             __rg.after(i, locals(), __j)          # assert Inv(j+1); cut
+         # falls through with Inv(j) and j >= n, i.e. j == max(n, 0)
+    """
+
+    def __init__(self, specs):
+        self.ordinal, self.specs, self.applied = 0, specs, 0
+
+    def visit_For(self, node):
+        self.generic_visit(node)
+        i = self.ordinal
+        self.ordinal += 1
+        if i not in self.specs:
+            return node
+        it = node.iter
+        if not (isinstance(it, ast.Call) and isinstance(it.func, ast.Name) and it.func.id == "range" and len(it.args) == 1 and not it.keywords):
+            raise core.Undecided("range rule: the loop is not `for _ in range(N)`")
+        if node.orelse or not isinstance(node.target, ast.Name):
+            raise core.Undecided("range rule: for/else or a structured loop target")
+        self.applied += 1
+        names = []
+        for n in ast.walk(ast.Module(body=node.body, type_ignores=[])):
+            ts = [n.target] if isinstance(n, ast.AugAssign) else list(n.targets) if isinstance(n, ast.Assign) else []
+            for t in ts:
+                if isinstance(t, ast.Name):
+                    if t.id not in names:
+                        names.append(t.id)
+                elif ast.unparse(t) not in self.specs[i].covers:
+                    raise core.Undecided(f"range rule: body assigns {ast.unparse(t)}, which the registered heap havoc does not cover")
+            if isinstance(n, (ast.While, ast.For, ast.Return, ast.Break, ast.Continue, ast.With)):
+                raise core.Undecided("loop body outside the range-rule subset (nested loop / break / continue / return)")
+        nn, j = f"__symx_n{i}", f"__symx_j{i}"
+        pre = [f"{nn} = {ast.unparse(it.args[0])}", f"__rg.enter({i}, locals(), {nn})"]
+        pre += [f"{x} = __rg.havoc({i}, {x!r})" for x in names]
+        pre.append(f"{j} = __rg.pick({i}, locals(), {nn})")
+        new = ast.parse("\n".join(pre)).body
+        head = ast.parse(f"{node.target.id} = {j}").body
+        tail = ast.parse(f"__rg.after({i}, locals(), {j})").body
+        iff = ast.If(test=ast.parse(f"{j} < {nn}", mode="eval").body, body=head + list(node.body) + tail, orelse=[])
+        return new + [iff]
+
+
+def rebuild_with_range(func, specs, fresh, extra_passes=(), n_for=None):
+    rule = RangeRule(specs)
+    ctx = _RangeCtx(specs, fresh)
+    new = rebuild(func, list(extra_passes) + [rule], extra_globals={"__rg": ctx})
+    if rule.applied != len(specs) or (n_for is not None and rule.ordinal != n_for):
+        raise core.Undecided(f"{func.__qualname__}: {rule.ordinal} for-loops found ({rule.applied} matched), "
+                             f"{len(specs)} range invariants registered for {n_for} expected loops")
+    return new, ctx
+
+
 def rebuild_with_foreach(func, specs, fresh, extra_passes=(), n_for=None):
     """Apply the for-each rule to the for-loops of func named in `specs` (ordinal -> ForEachSpec).
     `n_for` (if given) is the number of for-loops the function is expected to contain; a mismatch,
